@@ -10,12 +10,13 @@ verus! {
 //@include iter.rs
 //@include lemmas/window.rs
 //@include aggmodel.rs
+//@include lemmas/moments.rs
 
 pub type T = Option<f64>;
 
 //@const crate=tea-core name=EPS
 pub axiom fn ax_lits()
-    ensures rv(0.0f64) == 0real, !nan(0.0f64), rv(1e-14f64) * 100000000000000real == 1real, !nan(1e-14f64), rv(EPS) == rv(1e-14f64), !nan(EPS);
+    ensures rv(0.0f64) == 0real, !nan(0.0f64), rv(3f64) == 3real, !nan(3f64), rv(1e-14f64) * 100000000000000real == 1real, !nan(1e-14f64), rv(EPS) == rv(1e-14f64), !nan(EPS);
 
 // sums over a sequence of inner values
 pub open spec fn ivals(s: Seq<f64>) -> Seq<Option<real>> { Seq::new(s.len(), |i: int| Some(rv(s[i]))) }
@@ -150,25 +151,7 @@ pub proof fn lemma_fold_sum(s: Seq<f64>, init: f64, r: f64, p: spec_fn(f64, f64,
     }
 //@end
 
-// ---- second moment: the code's E(x^2) - E(x)^2 form against the textbook sample variance
-pub open spec fn biased_var(w: Seq<Option<real>>) -> real {
-    let n = cnt(w) as real;
-    ps(w, 2) / n - (ps(w, 1) / n) * (ps(w, 1) / n)
-}
-// textbook: sum of squared deviations from the mean
-pub open spec fn ssd(w: Seq<Option<real>>) -> real {
-    ps(w, 2) - ps(w, 1) * ps(w, 1) / (cnt(w) as real)
-}
-pub proof fn lemma_var_forms(s1: real, s2: real, n: real)
-    requires n >= 2real,
-    ensures (s2 / n - (s1 / n) * (s1 / n)) * n / (n - 1real) == (s2 - s1 * s1 / n) / (n - 1real),
-{
-    let a = s2 / n;
-    let b = s1 / n;
-    assert(a * n == s2) by(nonlinear_arith) requires a == s2 / n, n >= 2real;
-    assert(b * n == s1) by(nonlinear_arith) requires b == s1 / n, n >= 2real;
-    assert((a - b * b) * n == s2 - s1 * s1 / n) by(nonlinear_arith) requires a * n == s2, b * n == s1, n >= 2real;
-}
+// ---- second moment: the code's E(x^2) - E(x)^2 form against the textbook sample variance (lemmas/moments.rs)
 // what vmean_var / vvar promise for a series with value view w
 pub open spec fn mean_ok(w: Seq<Option<real>>, mp: int, m: f64) -> bool {
     &&& cnt(w) < mp ==> nan(m)
@@ -185,14 +168,16 @@ pub open spec fn pows_ok(h: Seq<f64>, m1: f64, m2: f64, m3: f64, k: int) -> bool
     &&& k >= 2 ==> !nan(m2) && rv(m2) == ps(ivals(h), 2)
     &&& k >= 3 ==> !nan(m3) && rv(m3) == ps(ivals(h), 3)
 }
-pub proof fn lemma_scaled_pos(a: real, n: real)
-    requires a > 0real, n >= 2real,
-    ensures a * n / (n - 1real) > 0real,
+// A-LEN: n(n-1) fits usize and is positive for n >= 2
+pub proof fn lemma_small_counts(k: int)
+    requires 0 <= k <= 0x7fff_ffff,
+    ensures k * (k - 1) <= 0x3fff_ffff_0000_0001, k >= 2 ==> k * (k - 1) >= 2,
 {
-    assert(a * n > 0real) by(nonlinear_arith) requires a > 0real, n >= 2real;
-    let b = a * n;
-    assert(b / (n - 1real) > 0real) by(nonlinear_arith) requires b > 0real, n >= 2real;
+    assert(k * (k - 1) <= 0x3fff_ffff_0000_0001) by(nonlinear_arith) requires 0 <= k <= 0x7fff_ffff;
+    if k >= 2 { assert(k * (k - 1) >= 2) by(nonlinear_arith) requires k >= 2; }
 }
+// IsNone::not_none on f64 (R12: `res.not_none()` on an f64 local)
+pub fn f64_not_none(x: f64) -> (r: bool) ensures r == !nan(x) { !x.is_nan() }
 pub proof fn lemma_rsqrt0()
     ensures rsqrt(0real) == 0real,
 {
@@ -567,6 +552,87 @@ pub proof fn lemma_cnt_zero_all_none(h: Seq<T>)
     proof { assert(vals(Seq::<T>::empty()).len() == 0); }
 //@at closure 1 after
     proof { assert(Seq::<T>::empty() + this.seq() =~= this.seq()); }
+//@end
+
+// adjusted Fisher-Pearson skewness  sqrt(n(n-1))/(n-2) * m3 / m2^(3/2)  of the non-null elements
+pub open spec fn skew_ok(w: Seq<Option<real>>, mp: int, r: f64) -> bool {
+    let n = cnt(w);
+    &&& n < mp ==> nan(r)
+    &&& (n >= mp && n < 3) ==> nan(r)
+    &&& (n >= mp && n >= 3) ==> !nan(r) && (if biased_var(w) > rv(EPS) {
+            let s = rsqrt(biased_var(w));
+            rv(r) == rsqrt((n * (n - 1)) as real) / ((n - 2) as real) * (cm3(w) / (s * s * s))
+        } else { rv(r) == 0real })
+}
+
+//@fn name=vskew crate=tea-core ctx="pub trait AggValidBasic" props=C11,C08 arith=C11
+//@types T::Inner=f64
+//@sig fn vskew(this: It<T>, min_periods: usize) -> (r: f64)
+//@replace .vapply_n( => .vapply_n_mut(
+//@replace res.not_none() => f64_not_none(res)
+//@closure 1 name=CloSkew trait="ApplyFn<f64>" params="v: f64" ret="()" push="v" caps="mut m1: f64, mut m2: f64, mut m3: f64" callty="f64" writeback=1
+//@closure 1 extra
+    open spec fn hist(&self) -> Seq<f64> { self.h@ }
+    open spec fn arg_ok(v: f64) -> bool { !nan(v) }
+//@closure 1 inv
+        &&& pows_ok(self.h@, self.m1, self.m2, self.m3, 3)                 // #C11 power_sums_describe_the_elements_seen
+//@at closure 1 first
+        broadcast use a_real;
+        proof {
+            lemma_ivals_push(self.h@, v);
+            lemma_push(ivals(self.h@), Some(rv(v)));
+        }
+//@spec
+    requires this.forever().is_none(), this.seq().len() <= 0x7fff_ffff, canon_seq(this.seq()),
+    ensures skew_ok(vals(this.seq()), min_periods as int, r),            // #C11,C08 adjusted_skewness_of_the_valid_elements
+//@at body first
+    let ghost s0 = this.seq();
+    broadcast use a_real, a_real_cmp;
+    proof { lemma_vseq_len(s0); lemma_inner_vals(s0); ax_lits(); reveal_with_fuel(rpow, 4); }
+//@at closure 1 decl
+    proof { assert(ivals(Seq::<f64>::empty()).len() == 0); }
+//@at closure 1 after
+    proof {
+        assert(Seq::<f64>::empty() + inner_seq(vseq(s0)) =~= inner_seq(vseq(s0)));
+        let w = vals(s0);
+        lemma_cnt_le_len(w);
+        lemma_small_counts(n as int);
+        if n >= 3 && biased_var(w) > rv(EPS) {
+            let vv = biased_var(w);
+            ax_rsqrt(vv);
+            let s = rsqrt(vv);
+            assert(s > 0real) by(nonlinear_arith) requires s >= 0real, s * s == vv, vv > 0real;
+            lemma_skew_core(em(w, 3), em(w, 1), s, em(w, 2));
+            ax_rsqrt((n * (n - 1)) as real);
+        }
+    }
+//@at body last
+    proof {
+        let w = vals(s0);
+        if n >= 3 {
+            assert(rv(m1) == em(w, 1));
+            assert(rv(m2) == em(w, 2));
+            if biased_var(w) > rv(EPS) {
+                let s = rsqrt(biased_var(w));
+                assert(rv(m3) == em(w, 3));
+                assert(!nan(res));
+                let core = cm3(w) / (s * s * s);
+                let adj = rsqrt((n * (n - 1)) as real) / ((n - 2) as real);
+                let raw = em(w, 3) / rpow(s, 3) - 3real * (em(w, 1) / s) - rpow(em(w, 1) / s, 3);
+                assert(raw == core);
+                if raw == 0real {
+                    assert(rv(res) == 0real);
+                    assert(adj * core == 0real) by(nonlinear_arith) requires core == 0real;
+                } else {
+                    assert(rv(res) == raw * adj);
+                    assert(raw * adj == adj * core) by(nonlinear_arith) requires raw == core;
+                }
+                assert(rv(res) == adj * core);
+            } else {
+                assert(rv(res) == 0real);
+            }
+        }
+    }
 //@end
 
 } // verus!
